@@ -217,7 +217,35 @@ def check_iteration(par):
     _check_order(par, ops, list(p.values), "second iteration")
     it = iter(p.values)
     next(it)
-    return _check_order(par, ops, list(p.values), "while another iterator is open")
+    _check_order(par, ops, list(p.values), "while another iterator is open")
+    # two iterators advanced in lock step: neither may disturb the other
+    a, b = iter(p.values), iter(p.values)
+    sa, sb = [], []
+    for _ in range(len(ops) + 1):
+        for itx, acc in ((a, sa), (b, sb)):
+            try:
+                acc.append(next(itx))
+            except StopIteration:
+                pass
+    _check_order(par, ops, sa, "first of two interleaved iterators")
+    _check_order(par, ops, sb, "second of two interleaved iterators")
+    # nested loops
+    outer = []
+    for o in p.values:
+        outer.append(o)
+        _check_order(par, ops, list(p.values), "inner loop of a nested iteration")
+    _check_order(par, ops, outer, "outer loop of a nested iteration")
+    # a loop over a freshly built pipeline whose body asks for operator state (creates the runtime status lazily,
+    # which walks the DAG itself)
+    p2 = Pipeline("w2", Priority.BATCH_PIPELINE)
+    ops2 = []
+    for pi in par:
+        ops2.append(p2.new_operator([ops2[j] for j in pi] or None))
+    seen = []
+    for o in p2.values:
+        o.state()
+        seen.append(o)
+    return _check_order(par, ops2, seen, "loop whose body reads operator state for the first time")
 
 
 def sweep_dags(max_n=6):
